@@ -214,7 +214,7 @@ def _alarm(signum, frame):
 
 def hang_limit():
     """CPU seconds one run may use (VERIF_HANG_LIMITS="<interpreted>,<jitted>")."""
-    a, b = (float(x) for x in os.environ.get("VERIF_HANG_LIMITS", "40,120").split(","))
+    a, b = (float(x) for x in os.environ.get("VERIF_HANG_LIMITS", "40,60").split(","))
     return a if os.environ.get("NUMBA_DISABLE_JIT", "0") == "1" else b
 
 
